@@ -366,7 +366,7 @@ Lemma constr_ok_mono : forall (ti ti' to to' : nat -> option ctype) c,
   constr_ok ti to c = true -> constr_ok ti' to' c = true.
 Proof.
   intros ti ti' to to' c Hi Ho H.
-  destruct c as [i o|i j|i j|i o|i o|i w|i w]; simpl in *.
+  destruct c as [i o|i j|i j|i o|i o|i w|i w|i j]; simpl in *.
   - destruct (Hi i) as [E|E]; rewrite E; auto. rewrite Ho. auto.
   - destruct (Hi i) as [E|E]; rewrite E; auto. destruct (ti i); auto.
     destruct (Hi j) as [E2|E2]; rewrite E2; auto.
@@ -376,6 +376,8 @@ Proof.
   - destruct (Hi i) as [E|E]; rewrite E; auto. rewrite Ho. auto.
   - destruct (Hi i) as [E|E]; rewrite E; auto.
   - destruct (Hi i) as [E|E]; rewrite E; auto.
+  - destruct (Hi i) as [E|E]; rewrite E; auto. destruct (ti i); auto.
+    destruct (Hi j) as [E2|E2]; rewrite E2; auto.
 Qed.
 
 (* a node whose own input types only got "less connected", whose output types and requirement are
